@@ -129,6 +129,61 @@ Theorem C09_before_inclusive_partial : forall tp st, Forall wf_part st -> (foral
 Proof. intros tp st W Hh NM Mx D i p s Hp Hs c Hc t Ht. exact (before_bound true tp st W Hh NM Mx D i p s Hp Hs c Hc t Ht). Qed.
 Print Assumptions C09_before_inclusive_partial.
 
+(* ---- BEFORE after a start without the snapshot of the time index (the start after a crash) ----
+   The time range of every chunk is then what cindex.lightFill reads from its first and last record ([light_part both]:
+   exchanged when the first is the newer one; both = the code [code_lightfill_swaps_both]). Full statement: on a store whose
+   ranges were computed that way, BEFORE t never removes a chunk holding an event that is not older than t. *)
+Definition before_blind_statement (both : bool) : Prop :=
+  forall tp st, Forall wf_part (map (light_part both) st) ->
+  (forall p, In p st -> Forall (fun c => ends_hold_max (c_ts c)) (p_chunks p)) ->
+  no_maxdb tp (map (light_part both) st) -> tp_max tp = 0 -> tp_dry tp = false ->
+  forall i p s, nth_error (map (light_part both) st) i = Some p -> nth_error (fst (Truncate code_incl tp (map (light_part both) st))) i = Some s ->
+  forall c, In c (removed p s) -> forall t, In t (c_ts c) -> (t < tp_oldest tp)%Z.
+
+(* Proved for the code, for chunks whose newest record is the first or the last one (ends_hold_max: what lightFill can see; a newest
+   record in the middle of a chunk is C02's recorded finding about non-monotone data) *)
+Theorem C09_before_blind : before_blind_statement code_lightfill_swaps_both.
+Proof.
+  intros tp st W E NM Mx D i p s Hp Hs c Hc t Ht.
+  refine (C09_before tp (map (light_part true) st) W _ NM Mx D i p s Hp Hs c Hc t Ht).
+  intros q Hq. apply in_map_iff in Hq as [q0 [<- Hq0]]. exact (light_part_hull_ok q0 (E q0 Hq0)).
+Qed.
+Print Assumptions C09_before_blind.
+
+(* ... and false when only the lower end is corrected (MaxTs left at the last record): chunk 50,10,20,30 followed by 60,70,80,90:
+   the range of the first chunk is 30..30, BEFORE 45 removes it although it holds the event 50 *)
+Definition blind_wit : part := mkPart 0 true false 0 [ch 1 104 4 [50; 10; 20; 30]; ch 2 104 4 [60; 70; 80; 90]]%Z.
+Theorem C09_before_blind_one_sided_refuted : ~ before_blind_statement false.
+Proof.
+  intros H.
+  specialize (H (mkTP false 0 0 45%Z no_db) [blind_wit]).
+  assert (W : Forall wf_part (map (light_part false) [blind_wit])).
+  { constructor; [|constructor]. split; [cbn; lia|]. split; [vm_compute; reflexivity|]. repeat constructor; intros _; vm_compute; reflexivity. }
+  assert (E : forall p, In p [blind_wit] -> Forall (fun c => ends_hold_max (c_ts c)) (p_chunks p)).
+  { intros p [<-|[]]. repeat constructor; cbn; intros t Ht; lia. }
+  specialize (H W E ltac:(vm_compute; discriminate) eq_refl eq_refl O (light_part false blind_wit)
+                (Kept (set_chunks (light_part false blind_wit) (skipn 1 (p_chunks (light_part false blind_wit))))) eq_refl ltac:(vm_compute; reflexivity)
+                (light_chunk false (ch 1 104 4 [50; 10; 20; 30]%Z)) ltac:(vm_compute; tauto) 50%Z ltac:(cbn; tauto)).
+  cbn in H. lia.
+Qed.
+Print Assumptions C09_before_blind_one_sided_refuted.
+
+(* without the hypothesis on the chunks the statement is false for the code as well (20,50,30: lightFill sees 20 and 30): C02's
+   finding about non-monotone data, seen from TRUNCATE *)
+Theorem C09_before_blind_inner_maximum_refuted :
+  exists tp st i p s c t, Forall wf_part (map (light_part code_lightfill_swaps_both) st) /\ tp_max tp = 0 /\ tp_dry tp = false /\
+    nth_error (map (light_part code_lightfill_swaps_both) st) i = Some p /\
+    nth_error (fst (Truncate code_incl tp (map (light_part code_lightfill_swaps_both) st))) i = Some s /\
+    In c (removed p s) /\ In t (c_ts c) /\ (tp_oldest tp <= t)%Z.
+Proof.
+  exists (mkTP false 0 0 45%Z no_db), [mkPart 0 true false 0 [ch 1 78 3 [20; 50; 30]; ch 2 104 4 [60; 70; 80; 90]]%Z], O.
+  eexists. eexists. exists (light_chunk true (ch 1 78 3 [20; 50; 30]%Z)), 50%Z.
+  split. { constructor; [|constructor]. split; [cbn; lia|]. split; [vm_compute; reflexivity|]. repeat constructor; intros _; vm_compute; reflexivity. }
+  split; [reflexivity|]. split; [reflexivity|]. split; [reflexivity|]. split; [vm_compute; reflexivity|].
+  split; [vm_compute; tauto|]. split; [cbn; tauto|]. cbn. lia.
+Qed.
+Print Assumptions C09_before_blind_inner_maximum_refuted.
+
 (* ---- dropping a partition ---- *)
 (* a partition is dropped only in a real run, only when no chunk with data is left and nobody else holds it
    (with C09_untouched: only if it is selected and not locked) *)
